@@ -301,6 +301,30 @@ def extra(tier, seed, stats):
             stats.classes["empty_records_enumerated"] += 1
             if r["status"] == "violation":
                 out.append({"case": c, "detail": r["detail"], "kind": r.get("kind")})
+    # rows whose GCG checksum sits on the edges of its range (0, 1, 9999): constructed by search over the last residues
+    import random as _r2
+    rnd2 = _r2.Random(seed + 41)
+    for target in (0, 0, 1, 9999, 9998, 5000):
+        row0 = None
+        for _try in range(600):
+            w = rnd2.randint(61, 130)
+            pre = "".join(rnd2.choice(gen.AA) for _ in range(w - 2))
+            hit = [pre + a + b for a in gen.AA for b in gen.AA if formats.gcg_checksum(pre + a + b) == target]
+            if hit:
+                row0 = rnd2.choice(hit)
+                break
+        if row0 is None:
+            continue
+        other = list(row0)
+        for pos in rnd2.sample(range(w), 6):
+            other[pos] = "-"
+        rows_c = [row0, "".join(other), row0[:w - 3] + "---"]
+        c = {"src": {"names": ["zero", "gapped", "short"], "rows": rows_c, "source": "synthetic"}, "outname_len": 0, "empties": []}
+        r = check(c)
+        stats.record(c, r)
+        stats.classes["checksum_edge_rows"] += 1
+        if r["status"] == "violation":
+            out.append({"case": c, "detail": r["detail"], "kind": r.get("kind")})
     for i, kind in enumerate(("dna", "protein", "dna", "protein")):
         c = {"hist": {"seed": seed * 11 + i, "kind": kind, "nbig": 8 if i < 2 else 30}}
         r = check_history(c)
